@@ -213,15 +213,15 @@ func c06LockHandoff(p *load.Program, r *oblig.Report) {
 			pass := func(i ssa.Instruction) bool {
 				switch x := i.(type) {
 				case *ssa.Call:
-					if f := x.Call.StaticCallee(); f != nil && an.RefFuncName(f) == "Unlock" && len(x.Call.Args) > 0 && x.Call.Args[0] == lockVal {
+					if f := x.Call.StaticCallee(); f != nil && an.RefFuncName(f) == "Unlock" && len(x.Call.Args) > 0 && an.ParamSource(x.Call.Args[0]) == lockVal {
 						return true
 					}
 				case *ssa.Defer:
-					if f := x.Call.StaticCallee(); f != nil && an.RefFuncName(f) == "Unlock" && len(x.Call.Args) > 0 && x.Call.Args[0] == lockVal {
+					if f := x.Call.StaticCallee(); f != nil && an.RefFuncName(f) == "Unlock" && len(x.Call.Args) > 0 && an.ParamSource(x.Call.Args[0]) == lockVal {
 						return true
 					}
 				case *ssa.Store:
-					if x.Val == lockVal {
+					if an.ParamSource(x.Val) == lockVal {
 						if fa, ok := x.Addr.(*ssa.FieldAddr); ok && an.NamedIs(fa.X.Type(), load.ModPath, "Batch") {
 							return true
 						}
